@@ -122,6 +122,15 @@ class VProc(object):
                 except Abort:
                     return
                 return
+            except SystemExit as e:
+                # sys.exit(n) in a child: the parent's wait() sees the low 8 bits of an integer status (sys.exit(256)
+                # looks like success), None is 0, anything else is printed and counts as 1
+                c = e.code
+                code = 0 if c is None else (c & 0xFF) if isinstance(c, int) and not isinstance(c, bool) else (int(c) if isinstance(c, bool) else 1)
+                if self.sched.procs and self.sched.procs[0] is self:
+                    code = 1  # the caller of the stage: the exception reaches the harness as it is
+                self.outcome = ("raise", "SystemExit", "SystemExit: %r" % (c,)) if code else ("return", None)
+                self.tb = traceback.format_exc()
             except BaseException as e:  # like a child process: print traceback, exit code 1
                 self.outcome = ("raise", type(e).__name__, "".join(traceback.format_exception_only(type(e), e)).strip())
                 self.tb = traceback.format_exc()
